@@ -215,8 +215,10 @@ func H_C04_int() {
 		f = g
 		vTag("negated")
 	}
+	st0 := vMetaState(idx)
 	res, err := idx.NewSearch().WithFilters(f).Execute()
 	vAssert(err == nil, "search-ok")
+	vAssert(vSameIDs(st0, vMetaState(idx)), "search-leaves-index-state-unchanged")
 	vCheckIDs(res, docs, func(d *vDoc) bool { r, _ := vEval(d, f); return r }, "int")
 	// searches are read-only
 	g := Exists("i")
@@ -292,8 +294,10 @@ func H_C04_cat() {
 	if vChoose("negate", 2) == 1 {
 		f = Not(f)
 	}
+	st0 := vMetaState(idx)
 	res, err := idx.NewSearch().WithFilters(f).Execute()
 	vAssert(err == nil, "search-ok")
+	vAssert(vSameIDs(st0, vMetaState(idx)), "search-leaves-index-state-unchanged")
 	vCheckIDs(res, docs, func(d *vDoc) bool { r, _ := vEval(d, f); return r }, "cat")
 	// read-only: ask again, and ask for plain membership of the operand value
 	res2, err2 := idx.NewSearch().WithFilters(f).Execute()
@@ -314,7 +318,8 @@ func H_C04_groups() {
 	}
 	idx := vMetaIndex(docs)
 	c := vI64("c")
-	menu := []Filter{In("s", "a"), Gte("i", c), Ne("b", true), Exists("i"), Lt("i", c), NotIn("s", "b", "zz")}
+	menu := []Filter{In("s", "a"), Gte("i", c), Ne("b", true), Exists("i"), Lt("i", c), NotIn("s", "b", "zz"), NotExists("nofield"), NotExists("b")}
+	st0 := vMetaState(idx)
 	pick := func(nm string) Filter { return menu[vChoose(nm, len(menu))] }
 	g1 := []Filter{pick("g1a")}
 	if vChoose("g1_two", 2) == 1 {
@@ -344,6 +349,7 @@ func H_C04_groups() {
 		vAssert(err == nil, "search-ok")
 		vCheckIDs(res, docs, func(d *vDoc) bool { return vOr(evalAnd(d, g1), evalAnd(d, g2)) }, "builder")
 	}
+	vAssert(vSameIDs(st0, vMetaState(idx)), "search-leaves-index-state-unchanged")
 	// searches are read-only: the same index still answers a follow-up battery correctly
 	for _, f := range []Filter{Eq("s", "a"), Exists("i"), Ne("b", true)} {
 		f := f
@@ -403,4 +409,39 @@ func H_C04_history() {
 		return r
 	}, "history")
 	vCover("ran")
+}
+
+// vMetaState: the whole logical state of a metadata index, read in-package
+// (live set, every posting list, every numeric field's columns) — searches must leave it unchanged
+func vMetaState(idx *RoaringMetadataIndex) []uint32 {
+	var out []uint32
+	out = append(out, 1000000)
+	out = append(out, idx.allDocs.ToArray()...)
+	keys := make([]string, 0, len(idx.categorical))
+	for k := range idx.categorical {
+		keys = append(keys, k)
+	}
+	for i := 1; i < len(keys); i++ {
+		for j := i; j > 0 && keys[j] < keys[j-1]; j-- {
+			keys[j], keys[j-1] = keys[j-1], keys[j]
+		}
+	}
+	for _, k := range keys {
+		out = append(out, 2000000+uint32(len(k)))
+		out = append(out, idx.categorical[k].ToArray()...)
+	}
+	fields := make([]string, 0, len(idx.numeric))
+	for f := range idx.numeric {
+		fields = append(fields, f)
+	}
+	for i := 1; i < len(fields); i++ {
+		for j := i; j > 0 && fields[j] < fields[j-1]; j-- {
+			fields[j], fields[j-1] = fields[j-1], fields[j]
+		}
+	}
+	for _, f := range fields {
+		out = append(out, 3000000+uint32(len(f)))
+		out = append(out, idx.numeric[f].GetExistenceBitmap().ToArray()...)
+	}
+	return out
 }
